@@ -154,6 +154,10 @@ func (p *Pop) create(op string) {
 	case "Fresh":
 		i := p.add(p.genFresh())
 		c.Step("%s = fresh %s %v", p.name(i), p.live[i].Form, descSet(p.live[i].M))
+		if r.Chance(0.3) && !p.live[i].ZC {
+			c.Step("%s.SetCopyOnWrite(true)", p.name(i))
+			p.live[i].B.SetCopyOnWrite(true)
+		}
 		return
 	case "Clone":
 		a := p.pick()
